@@ -417,6 +417,55 @@ def _random_history(args):
     return r.events, r.calls
 
 
+def pickup_solve_history(args):
+    """update() after editing a pickup source, with a solve downstream: pickups are applied
+    first, then solves, so both must hold afterwards."""
+    import contextlib
+    import io
+    with contextlib.redirect_stdout(io.StringIO()):
+        return _pickup_solve_history(args)
+
+
+def _pickup_solve_history(args):
+    tid, seed = args
+    rnd = random.Random(seed)
+    r = Rec(tid)
+    r.add_wavelength(rnd.uniform(0.45, 0.65), is_primary=True)
+    r.add_surface(thickness=math.inf)               # infinite object: the marginal ray does not depend on the pupil position
+    n_el = rnd.randint(2, 4)
+    for j in range(1, n_el + 1):
+        R = rnd.choice([-1, 1]) * rnd.uniform(30.0, 200.0)
+        r.add_surface(radius=R, thickness=rnd.uniform(2.0, 15.0),
+                      material=round(rnd.uniform(1.4, 1.8), 3) if j % 2 == 1 else "air", is_stop=(j == 1))
+    r.add_surface(thickness=rnd.uniform(20.0, 80.0))    # a dummy plane, then the image
+    r.add_surface()
+    n = n_el + 3
+    attr = rnd.choice(["radius", "radius", "thickness"])
+    if n_el < 3:
+        attr = "radius"
+    if attr == "radius":
+        src, tgt = rnd.sample(range(1, n_el + 1), 2)
+        r.pickup_add(src, "radius", tgt, rnd.choice([-1.0, 1.0, 0.5]), rnd.choice([0.0, 3.0]))
+    else:
+        src, tgt = rnd.sample(range(1, n_el), 2)
+        r.pickup_add(src, "thickness", tgt, rnd.choice([1.0, 0.5]), rnd.choice([0.0, 1.0]))
+    ks = rnd.choice([n - 1, n - 2])
+    try:
+        ya, ua = r.optic.paraxial.marginal_ray()
+        if abs(float(np.ravel(ua)[ks - 1])) < 1e-3 or not np.all(np.isfinite(ya)):
+            return r.events, r.calls
+    except Exception:
+        return r.events, r.calls
+    r.solve_add(ks, rnd.choice([0.0, rnd.uniform(-1, 1)]))
+    for _ in range(rnd.randint(2, 4)):
+        if attr == "radius":
+            r.set_radius(rnd.choice([-1, 1]) * rnd.uniform(30.0, 200.0), src)
+        else:
+            r.set_thickness(rnd.uniform(2.0, 15.0), src)
+        r.update()
+    return r.events, r.calls
+
+
 # ---------------------------------------------------------------- driver ----
 def classify(ev, clause, events):
     """Input-class attributes for known-finding matching."""
@@ -444,6 +493,10 @@ def run(ctx, jobs_sim, features=("pickups", "solves", "catalogue")):
             events += evs
             traces[evs[0]["tid"]] = calls
         for evs, calls in ex.map(random_history, tasks_r, chunksize=8):
+            events += evs
+            traces[evs[0]["tid"]] = calls
+        tasks_p = [(50000 + i, ctx.seed * 7907 + i) for i in range(40 if quick else 600)]
+        for evs, calls in ex.map(pickup_solve_history, tasks_p, chunksize=4):
             events += evs
             traces[evs[0]["tid"]] = calls
     # keep traces contiguous within a shard: shard by trace id
